@@ -261,6 +261,38 @@ func runC09(c c09Case) *vlib.Outcome {
 					_ = err
 				}
 			}
+			// An embedded rule evaluated at ln with a context that was last
+			// used for another location (a client that reuses its
+			// context): the action must still work on ln.
+			if !w.hasLoop(ln) && w.model[ln].locEnabled() == 1 {
+				other := locs[0]
+				if other == ln {
+					other = locs[1]
+				}
+				pctx := newCtx()
+				pctx.SetLoc(w.locs[other])
+				probe := M{"when": M{"pattern": M{"evalprobe": "?p"}}, "action": M{"code": "Env.AddFact('made_eval', {probe_in: Env.Location}); Env.Location"}}
+				work, cond := w.locs[ln].ProcessEvent(pctx, core.Map{"evalprobe": "1", "evaluate!": probe})
+				if cond == nil && work != nil {
+					for _, v := range work.Values {
+						if s, ok := v.(string); ok && s != ln {
+							o.Fail("ACTION_SAW_WRONG_LOCATION", "%s: an embedded rule evaluated at %s (with a context last used for %s) ran its action in location %q", lwhen, ln, other, s)
+						}
+					}
+				}
+				for _, l2 := range locs {
+					_, err := w.locs[l2].GetFact(newCtx(), "made_eval")
+					if err == nil && l2 != ln {
+						o.Fail("ACTION_WROTE_TO_OTHER_LOCATION", "%s: the action of an embedded rule evaluated at %s wrote its fact into location %s", lwhen, ln, l2)
+					}
+					if err == nil {
+						w.locs[l2].RemFact(newCtx(), "made_eval")
+					}
+				}
+				if o.Failed() {
+					return o
+				}
+			}
 			// own (non-inherited) observations always follow the model
 			for _, p := range patterns {
 				w.checkSearch(ln, p, false, lwhen)
